@@ -38,7 +38,7 @@ func newRapidSim(prop, pkg, testName string) *rapidSim {
 	}
 	bin := filepath.Join(s.Dir, "bin", pkg+".test")
 	os.MkdirAll(filepath.Dir(bin), 0o755)
-	if out, err := run(s.Gleece, nil, "go", "test", "-c", "-o", bin, "./verifharness/"+pkg); err != nil {
+	if out, err := run(s.Gleece, nil, "go", "test", "-c", "-trimpath", "-o", bin, "./verifharness/"+pkg); err != nil {
 		harnessFail("building %s against the working tree failed: %v\n%s", pkg, err, out)
 	}
 	fmt.Printf("%s: instrumented copy + harness built in %.1fs (%d sites, fingerprint %s)\n", pkg, time.Since(t0).Seconds(), len(s.Sites), s.Fingerprint)
